@@ -1,5 +1,5 @@
 From Coq Require Import Extraction ExtrOcamlBasic.
-From CV Require Import C20.ScriptModel C20.GradModel C20.SemModel.
+From CV Require Import C20.ScriptModel C20.GradModel C20.SemModel C20.EnergyModel.
 Extraction Language OCaml.
 Extraction "model.ml" dispatch is_error table_wf lookup entry_class is_pseudo witness_words exec do_event run_events state_wf
-  lower_bound collect_groups build_ids increasing exec_sem do_sevent run_sevents resync sem_step combine parse_flags apply_pending.
+  lower_bound collect_groups build_ids increasing exec_sem do_sevent run_sevents resync sem_step combine parse_flags apply_pending energy_step.
